@@ -64,9 +64,29 @@ func copyVars(v map[string]interface{}) map[string]interface{} {
 	}
 	out := make(map[string]interface{}, len(v))
 	for k, x := range v {
-		out[k] = x
+		out[k] = copyVal(x)
 	}
 	return out
+}
+
+// copyVal copies a variable value deeply: the library coerces variable values
+// in place, and every request owns its variables.
+func copyVal(v interface{}) interface{} {
+	switch tv := v.(type) {
+	case map[string]interface{}:
+		out := make(map[string]interface{}, len(tv))
+		for k, x := range tv {
+			out[k] = copyVal(x)
+		}
+		return out
+	case []interface{}:
+		out := make([]interface{}, len(tv))
+		for i, x := range tv {
+			out[i] = copyVal(x)
+		}
+		return out
+	}
+	return v
 }
 
 func (c C12) Run(t *tape.Tape, opt core.RunOpt) (res core.Result) {
@@ -97,7 +117,7 @@ func (c C12) Run(t *tape.Tape, opt core.RunOpt) (res core.Result) {
 	// the same first-use windows), the other half mixes in the special ones
 	extras := t.Bool(1, 2)
 	for i := range pool {
-		pool[i] = workload.GenRequest(t, workload.ReqOpt{Strat: strat, MultiOp: !pathMode && t.Bool(1, 4), Introspection: !pathMode, NoUnion: noUnion, Ghost: extras && t.Bool(1, 2), Relay: extras && t.Bool(1, 2), Pick: extras && t.Bool(1, 2), Nick: extras && t.Bool(1, 2),
+		pool[i] = workload.GenRequest(t, workload.ReqOpt{Strat: strat, MultiOp: !pathMode && t.Bool(1, 4), Introspection: !pathMode, NoUnion: noUnion, Ghost: extras && t.Bool(1, 2), Relay: extras && t.Bool(1, 2), Pick: extras && t.Bool(1, 2), Nick: extras && t.Bool(1, 2), Span: extras && t.Bool(1, 2),
 			VarInLiteral: strat != workload.StratReflect, ShuffleArgs: true, MaxDepth: 2 + t.Draw(3), PathMode: pathMode})
 	}
 	base := make([]string, len(pool))
